@@ -461,6 +461,17 @@ Proof.
   apply negb_true_iff in S, E. repeat split; auto. discriminate.
 Qed.
 
+Lemma finish_char_star t a : has_quote a = false ->
+  finish_type (s "character") t true a = Ok (mkpt (s "character") t None (Some a) None).
+Proof. intros Q. unfold finish_type. now rewrite Q. Qed.
+
+Lemma expr_quote k : expr_ok k = true -> existsb is_quote k = false.
+Proof.
+  unfold expr_ok. destruct k; [discriminate|]. intros H.
+  apply andb_true_iff in H as [H _]. apply andb_true_iff in H as [H _]. apply andb_true_iff in H as [_ Q].
+  now apply negb_true_iff.
+Qed.
+
 Lemma match_ci_suffix w : forall x r, match_ci w x = Some r -> exists p, x = p ++ r.
 Proof.
   induction w as [|a w IH]; intros x r H.
@@ -537,10 +548,33 @@ Proof.
 Qed.
 
 (* ------------------------------------------------------------------ numeric types *)
-Lemma finish_num b t star args :
+Lemma quote_recase m w : forallb is_lower w = true -> existsb is_quote (recase m w) = false.
+Proof.
+  intros L. apply Bool.not_true_is_false. intros E. apply existsb_exists in E as (c & Hc & Q).
+  pose proof (alpha_recase m w L) as A. rewrite forallb_forall in A. specialize (A c Hc).
+  unfold is_quote in Q. apply orb_true_iff in Q as [Q|Q]; apply Ascii.eqb_eq in Q; subst c; discriminate A.
+Qed.
+
+Lemma quote_digits ds : forallb is_digit ds = true -> existsb is_quote ds = false.
+Proof.
+  intros D. apply Bool.not_true_is_false. intros E. apply existsb_exists in E as (c & Hc & Q).
+  rewrite forallb_forall in D. specialize (D c Hc).
+  unfold is_quote in Q. apply orb_true_iff in Q as [Q|Q]; apply Ascii.eqb_eq in Q; subst c; discriminate D.
+Qed.
+
+(* the selector text is free of quotes *)
+Ltac noquote :=
+  unfold has_quote;
+  rewrite ?existsb_app; cbn [existsb]; rewrite ?existsb_app; cbn [existsb];
+  rewrite ?quote_recase by reflexivity;
+  change (is_quote c_eq) with false; change (is_quote c_comma) with false;
+  repeat match goal with H : existsb is_quote ?x = false |- _ => rewrite H end;
+  reflexivity.
+
+Lemma finish_num b t star args : has_quote args = false ->
   finish_type (base_word b) t star args
   = Ok (mkpt (base_word b) t (Some (match kind_re args with Some k => k | None => args end)) None None).
-Proof. destruct b; reflexivity. Qed.
+Proof. intros Q. unfold finish_type. rewrite Q. destruct b; reflexivity. Qed.
 
 Lemma base_word_simple b : In (base_word b) simple_words.
 Proof. destruct b; simpl; auto 8. Qed.
@@ -568,25 +602,25 @@ Proof.
   assert (Pl : plain_type (base_word b) = true) by (destruct b; reflexivity).
   destruct k as [k|].
   - cbn [type_ok] in W. apply andb_true_iff in W as [E F].
-    destruct (expr_ok_inv k E) as (Nk & Sk & Ek & Bk).
+    destruct (expr_ok_inv k E) as (Nk & Sk & Ek & Bk). pose proof (expr_quote k E) as Qk.
     cbn [render_type]. rewrite <- app_assoc.
     rewrite (parse_type_word _ _ _ (base_word_simple b) Lw), Nd.
     destruct (t_form sp) as [|[|f]] eqn:Form.
     + (* (k) *)
       rewrite paren_shape.
       rewrite after_type_paren; [|now apply padded_nonempty|now rewrite bal_padded|exact T].
-      rewrite remove_ws_padded, (remove_ws_id k Sk), finish_num. now rewrite (kind_re_none k Ek).
+      rewrite remove_ws_padded, (remove_ws_id k Sk), finish_num by noquote. now rewrite (kind_re_none k Ek).
     + (* (kind=k) *)
       rewrite paren_shape.
       rewrite after_type_paren; [|apply padded_nonempty, keyeq_nonempty, Nk
                                  |now rewrite bal_padded, bal_keyeq by reflexivity|exact T].
       rewrite remove_ws_padded, remove_ws_keyeq by (try reflexivity; exact Sk).
-      rewrite finish_num. now rewrite (kind_re_keyeq _ k Nk Sk).
+      rewrite finish_num by noquote. now rewrite (kind_re_keyeq _ k Nk Sk).
     + (* *k, with any number of blanks after the star *)
       change (2 <=? S (S f)) with true in F. cbv iota in F.
       destruct (all_digits_inv k F) as (_ & Dk).
       cbn [app]. rewrite <- app_assoc.
-      rewrite (after_type_star _ (t_bstar sp) k n t Nk Dk T), finish_num.
+      rewrite (after_type_star _ (t_bstar sp) k n t Nk Dk T), finish_num by (apply quote_digits, Dk).
       now rewrite (kind_re_none k (digits_no_eq k Dk)).
   - cbn [render_type].
     rewrite (parse_type_word _ _ _ (base_word_simple b) Lw), Nd.
@@ -682,10 +716,14 @@ Proof.
   rewrite after_type_paren; [|apply padded_nonempty; subst name; discriminate
                              |now rewrite bal_padded, bal_words|exact T].
   rewrite remove_ws_padded, (remove_ws_id name (words_nospace name Ws)).
-  assert (F : forall args, finish_type w t false args
+  assert (Qn : has_quote name = false).
+  { unfold has_quote. apply Bool.not_true_is_false. intros Ex. apply existsb_exists in Ex as (q & Hq & Q).
+    rewrite forallb_forall in Ws. specialize (Ws q Hq).
+    unfold is_quote in Q. apply orb_true_iff in Q as [Q|Q]; apply Ascii.eqb_eq in Q; subst q; discriminate Ws. }
+  assert (F : forall args, has_quote args = false -> finish_type w t false args
                            = match proto_re args with Some p => Ok (mkpt w t None None (Some p)) | None => value_error end)
-    by (intros; unfold w; destruct cls; reflexivity).
-  rewrite F. unfold proto_re. rewrite E.
+    by (intros args Qa; unfold finish_type; rewrite Qa; unfold w; destruct cls; reflexivity).
+  rewrite (F name Qn). unfold proto_re. rewrite E.
   destruct (alpha_plain c A) as (_ & _ & _ & _ & _ & _ & _ & St). rewrite St.
   rewrite <- E, (take_while_end is_word name Ws). rewrite E. reflexivity.
 Qed.
@@ -782,17 +820,29 @@ Qed.
 (* LEN_RE *)
 Lemma len_re_named kc l : l <> [] -> existsb is_space l = false ->
   len_re (recase kc (s "len") ++ c_eq :: l) = Some l.
-Proof. intros N S. now apply key_eq_rest_keyeq. Qed.
+Proof. intros N S. unfold len_re. now rewrite key_eq_rest_keyeq. Qed.
 
-Lemma len_re_other l : existsb (Ascii.eqb c_eq) l = false -> len_re l = None.
-Proof. apply key_eq_rest_none. Qed.
+(* without "=": the text itself when it consists of digits, nothing otherwise *)
+Lemma len_re_other l : existsb (Ascii.eqb c_eq) l = false -> len_re l = Some l \/ len_re l = None.
+Proof.
+  intros E. unfold len_re. rewrite (key_eq_rest_none _ l E).
+  destruct (take_while is_digit l) as [ds r] eqn:T. destruct ds as [|d ds]; [now right|].
+  destruct r as [|c r]; [|now right]. left. f_equal.
+  assert (G : forall x a b, take_while is_digit x = (a, b) -> x = a ++ b).
+  { induction x as [|c x IH]; intros a b H; simpl in H.
+    - now injection H as <- <-.
+    - destruct (is_digit c); [|now injection H as <- <-].
+      destruct (take_while is_digit x) as [a' b'] eqn:T'. injection H as <- <-. simpl. f_equal. now apply IH. }
+  rewrite (G _ _ _ T). now rewrite app_nil_r.
+Qed.
 
 (* the first parameter written positionally *)
 Lemma char_first_positional l rest kind :
   expr_ok l = true -> char_params (l :: rest) None kind = char_params rest (Some l) kind.
 Proof.
   intros E. destruct (expr_ok_inv l E) as (N & S & Eq & B).
-  cbn [char_params]. rewrite (len_re_other l Eq), (kind_re_none l Eq). destruct kind; reflexivity.
+  cbn [char_params]. destruct (len_re_other l Eq) as [-> | ->]; [reflexivity|].
+  rewrite (kind_re_none l Eq). destruct kind; reflexivity.
 Qed.
 
 Lemma char_first_named kc l rest kind :
@@ -803,7 +853,13 @@ Proof. intros N S. cbn [char_params]. now rewrite (len_re_named kc l N S). Qed.
 Lemma len_re_kind_text kc k : len_re (recase kc (s "kind") ++ c_eq :: k) = None.
 Proof.
   unfold len_re, key_eq_rest.
-  now rewrite (match_ci_lower (s "len")) by (rewrite map_app, lower_recase by reflexivity; reflexivity).
+  rewrite (match_ci_lower (s "len")) by (rewrite map_app, lower_recase by reflexivity; reflexivity).
+  destruct (recase_head kc "k"%char (s "ind") eq_refl) as (d & r & E & A & _).
+  change (s "kind") with ("k"%char :: s "ind"). rewrite E. cbn [app take_while].
+  assert (D : is_digit d = false).
+  { unfold is_alpha, is_upper, is_lower, is_digit in *. apply andb_false_iff. right. apply Nat.leb_gt.
+    apply orb_true_iff in A as [A|A]; apply andb_true_iff in A as [A1 A2]; apply Nat.leb_le in A1; lia. }
+  now rewrite D.
 Qed.
 
 Lemma has_quote_false k : existsb is_quote k = false -> has_quote k = false.
@@ -814,8 +870,7 @@ Lemma char_kind_named kc k rest len :
   char_params ((recase kc (s "kind") ++ c_eq :: k) :: rest) len None = char_params rest len (Some k).
 Proof.
   intros E Q. destruct (expr_ok_inv k E) as (N & S & _ & _).
-  cbn [char_params]. rewrite len_re_kind_text, (kind_re_keyeq kc k N S).
-  unfold has_quote. rewrite Q. destruct len; reflexivity.
+  cbn [char_params]. rewrite len_re_kind_text, (kind_re_keyeq kc k N S). destruct len; reflexivity.
 Qed.
 
 Lemma char_kind_positional k rest l :
@@ -825,20 +880,13 @@ Proof.
   cbn [char_params]. rewrite (kind_re_none k Eq). destruct (len_re k); reflexivity.
 Qed.
 
-Lemma finish_char t args :
+Lemma finish_char t args : has_quote args = false ->
   finish_type (s "character") t false args =
   let parts := split_on c_comma args in
   if 2 <? length parts then value_error
   else do lk <- char_params parts None None;
        Ok (mkpt (s "character") t (snd lk) (Some (match fst lk with Some l => l | None => s "1" end)) None).
-Proof. reflexivity. Qed.
-
-Lemma expr_quote k : expr_ok k = true -> existsb is_quote k = false.
-Proof.
-  unfold expr_ok. destruct k; [discriminate|]. intros H.
-  apply andb_true_iff in H as [H _]. apply andb_true_iff in H as [H _]. apply andb_true_iff in H as [_ Q].
-  now apply negb_true_iff.
-Qed.
+Proof. intros Q. unfold finish_type. now rewrite Q. Qed.
 
 Lemma remove_ws_comma sp : remove_ws (comma sp) = [c_comma].
 Proof. unfold comma. change (c_comma :: blanks (t_b3 sp)) with ([c_comma] ++ blanks (t_b3 sp)).
@@ -886,19 +934,19 @@ Proof.
     apply negb_true_iff in H, H0.
     rename W into El, H1 into Ek, H0 into Cl, H into Ck.
     destruct (expr_ok_inv l El) as (Nl & Sl & _ & Bl). destruct (expr_ok_inv k Ek) as (Nk & Sk & _ & Bk).
-    pose proof (expr_quote k Ek) as Qk.
+    pose proof (expr_quote k Ek) as Qk. pose proof (expr_quote l El) as Ql.
     rewrite <- app_assoc, P.
     destruct (t_form sp) as [|[|[|[|f]]]] eqn:Form; rewrite paren_shape.
     + rewrite after_type_paren; [|apply padded_nonempty; destruct l; [congruence|discriminate]
                                  |now rewrite bal_padded, (bal_app l _ Bl), bal_comma|exact T].
       rewrite remove_ws_padded, !remove_ws_app, remove_ws_comma, (remove_ws_id l Sl), (remove_ws_id k Sk).
-      rewrite finish_char. cbv zeta. rewrite (split_two l k Cl Ck).
+      rewrite finish_char by noquote. cbv zeta. rewrite (split_two l k Cl Ck).
       change (2 <? 2) with false. cbv match. fixty.
       rewrite (char_first_positional l [k] None El), (char_kind_positional k [] l Ek). reflexivity.
     + rewrite after_type_paren; [|apply padded_nonempty; destruct l; [congruence|discriminate]
                                  |now rewrite bal_padded, (bal_app l _ Bl), bal_comma|exact T].
       rewrite remove_ws_padded, !remove_ws_app, remove_ws_comma, (remove_ws_id l Sl), (remove_ws_id k Sk).
-      rewrite finish_char. cbv zeta. rewrite (split_two l k Cl Ck).
+      rewrite finish_char by noquote. cbv zeta. rewrite (split_two l k Cl Ck).
       change (2 <? 2) with false. cbv match. fixty.
       rewrite (char_first_positional l [k] None El), (char_kind_positional k [] l Ek). reflexivity.
     + (* len=l, kind=k *)
@@ -907,7 +955,7 @@ Proof.
       2:{ rewrite bal_padded. rewrite bal_app by (now rewrite bal_keyeq by reflexivity).
           now rewrite bal_comma, bal_keyeq by reflexivity. }
       rewrite remove_ws_padded, !remove_ws_app, remove_ws_comma, !remove_ws_keyeq by (try reflexivity; assumption).
-      rewrite finish_char. cbv zeta.
+      rewrite finish_char by noquote. cbv zeta.
       rewrite split_two by (apply keyeq_no_comma; [reflexivity|assumption]).
       change (2 <? 2) with false. cbv match. fixty.
       rewrite (char_first_named _ l _ None Nl Sl), (char_kind_named _ k [] (Some l) Ek Qk). reflexivity.
@@ -917,7 +965,7 @@ Proof.
       2:{ rewrite bal_padded. rewrite bal_app by (now rewrite bal_keyeq by reflexivity).
           now rewrite bal_comma, bal_keyeq by reflexivity. }
       rewrite remove_ws_padded, !remove_ws_app, remove_ws_comma, !remove_ws_keyeq by (try reflexivity; assumption).
-      rewrite finish_char. cbv zeta.
+      rewrite finish_char by noquote. cbv zeta.
       rewrite split_two by (apply keyeq_no_comma; [reflexivity|assumption]).
       change (2 <? 2) with false. cbv match. fixty.
       rewrite (char_kind_named _ k _ None Ek Qk), (char_first_named _ l [] (Some k) Nl Sl). reflexivity.
@@ -926,38 +974,38 @@ Proof.
                                  | |exact T].
       2:{ rewrite bal_padded, (bal_app l _ Bl), bal_comma. now rewrite bal_keyeq by reflexivity. }
       rewrite remove_ws_padded, !remove_ws_app, remove_ws_comma, (remove_ws_id l Sl), remove_ws_keyeq by (try reflexivity; assumption).
-      rewrite finish_char. cbv zeta.
+      rewrite finish_char by noquote. cbv zeta.
       rewrite split_two by (try (apply keyeq_no_comma; [reflexivity|assumption]); assumption).
       change (2 <? 2) with false. cbv match. fixty.
       rewrite (char_first_positional l _ None El), (char_kind_named _ k [] (Some l) Ek Qk). reflexivity.
   - (* length only *)
     apply andb_true_iff in W as [El Cl]. apply negb_true_iff in Cl.
-    destruct (expr_ok_inv l El) as (Nl & Sl & _ & Bl).
+    destruct (expr_ok_inv l El) as (Nl & Sl & _ & Bl). pose proof (expr_quote l El) as Ql.
     rewrite <- app_assoc, P.
     destruct (t_form sp) as [|[|f]] eqn:Form.
     + destruct (all_digits l) eqn:Ad.
       * destruct (all_digits_inv l Ad) as (_ & Dl). cbn [app]. rewrite <- app_assoc.
-        now rewrite (after_type_star _ (t_bstar sp) l n t Nl Dl T).
+        now rewrite (after_type_star _ (t_bstar sp) l n t Nl Dl T), (finish_char_star t l Ql).
       * cbn [app]. rewrite <- !app_assoc. cbn [app]. rewrite <- app_assoc. cbn [app].
-        rewrite (after_type_star_paren _ (t_bstar sp) l n t Nl Bl T). now rewrite (remove_ws_id l Sl).
+        rewrite (after_type_star_paren _ (t_bstar sp) l n t Nl Bl T). now rewrite (remove_ws_id l Sl), (finish_char_star t l Ql).
     + rewrite paren_shape.
       rewrite after_type_paren; [|now apply padded_nonempty|now rewrite bal_padded|exact T].
-      rewrite remove_ws_padded, (remove_ws_id l Sl), finish_char. cbv zeta.
+      rewrite remove_ws_padded, (remove_ws_id l Sl), finish_char by noquote. cbv zeta.
       rewrite (split_on_none c_comma l Cl). change (2 <? 1) with false. cbv match. fixty.
-      now rewrite (char_first_positional l [] None El).
+      rewrite (char_first_positional l [] None El). reflexivity.
     + rewrite paren_shape.
       rewrite after_type_paren; [|apply padded_nonempty, keyeq_nonempty, Nl
                                  |now rewrite bal_padded, bal_keyeq by reflexivity|exact T].
-      rewrite remove_ws_padded, remove_ws_keyeq by (try reflexivity; exact Sl). rewrite finish_char. cbv zeta.
+      rewrite remove_ws_padded, remove_ws_keyeq by (try reflexivity; exact Sl). rewrite finish_char by noquote. cbv zeta.
       rewrite split_on_none by (apply keyeq_no_comma; [reflexivity|exact Cl]).
-      change (2 <? 1) with false. cbv match. fixty. now rewrite (char_first_named _ l [] None Nl Sl).
+      change (2 <? 1) with false. cbv match. fixty. rewrite (char_first_named _ l [] None Nl Sl). reflexivity.
   - (* kind only *)
     apply andb_true_iff in W as [Ek Ck]. apply negb_true_iff in Ck.
     destruct (expr_ok_inv k Ek) as (Nk & Sk & _ & Bk). pose proof (expr_quote k Ek) as Qk.
     rewrite <- app_assoc, P, paren_shape.
     rewrite after_type_paren; [|apply padded_nonempty, keyeq_nonempty, Nk
                                |now rewrite bal_padded, bal_keyeq by reflexivity|exact T].
-    rewrite remove_ws_padded, remove_ws_keyeq by (try reflexivity; exact Sk). rewrite finish_char. cbv zeta.
+    rewrite remove_ws_padded, remove_ws_keyeq by (try reflexivity; exact Sk). rewrite finish_char by noquote. cbv zeta.
     rewrite split_on_none by (apply keyeq_no_comma; [reflexivity|exact Ck]).
     change (2 <? 1) with false. cbv match. fixty. now rewrite (char_kind_named _ k [] None Ek Qk).
   - (* bare *)
@@ -1111,7 +1159,7 @@ Lemma record_plain st lits g1 a name :
 Proof.
   intros E D O P W. unfold record_attribute. rewrite E, D, O, P.
   rewrite (paren_split_words c_comma name W eq_refl). cbn [fold_left bind].
-  now rewrite (words_stripped name W).
+  unfold attr_key. now rewrite (remove_ws_id name (words_nospace name W)).
 Qed.
 
 Lemma apply_text_attr params v a :
@@ -1139,7 +1187,8 @@ Proof.
                 seqb (firstn 6 a) (s "intent") = false -> seqb a (s "optional") = false ->
                 dim_re a = false -> seqb a (s "parameter") = false ->
                 process_attribs st [v] = Ok [set_attribs v (v_attribs v ++ [a])]).
-  { intros st E A B O C D. unfold process_attribs. rewrite E. cbn [process_go dict_get]. rewrite seqb_refl.
+  { intros st E A B O C D. unfold process_attribs. cbn [mapM]. rewrite E. unfold attr_key.
+    rewrite (remove_ws_id _ (words_nospace _ W)). cbn [dict_get]. rewrite seqb_refl.
     cbn [fold_left]. now rewrite (apply_text_attr _ v a A B O C D). }
   destruct Ha as [<-|[<-|Ha]].
   - split; [|reflexivity]. eexists. split; [apply (record_dimlike _ _ _ (s "allocatable")); try reflexivity; exact W|].
